@@ -493,6 +493,15 @@ def _run_case(case, mon):
                 r = random.Random(op["r"])
                 ospec = gen.rand_leaf_spec(r, init["ext"][-1] + 1, r.choice([0.0, 0.5, 0.9]), 0.2, d)
                 other = gen.fiber_from_spec(ospec, d)
+                # the right-hand side is a fiber of its own, or (every other time) the sub-fiber stored under another prefix of the same tree
+                src_pre = None
+                if (op["r"] >> 7) % 2:
+                    sibs = sorted({p_[:len(pre)] for p_ in model if p_[:len(pre)] != pre and len(p_) == depth})
+                    if sibs:
+                        src_pre = sibs[(op["r"] >> 8) % len(sibs)]
+                        other = entry(op).getPayload(*src_pre)
+                        ospec = [[p_[-1], v_] for p_, v_ in sorted(model.items()) if p_[:len(pre)] == src_pre]
+                        mon.count("assign_prefix_from_same_tree")
                 sub <<= other
                 for p_ in [p_ for p_ in model if p_[:len(pre)] == pre]:
                     del model[p_]
@@ -501,6 +510,40 @@ def _run_case(case, mon):
                         model[pre + (c,)] = v
                 held = [(hp, r_) for hp, r_ in held if hp[:len(pre)] != pre]
                 wrote -= {w for w in wrote if w[:len(pre)] == pre}
+                if not compare("assign_prefix:assigned"):
+                    return
+                # the assignment copies values: a later update of the source is an update of the source only
+                # ("disturbs no other point"), and a later update of the destination leaves the source alone
+                live = [c for c, v in ospec if v != d]
+                if live and isinstance(other, Fiber):
+                    c0 = live[(op["r"] >> 3) % len(live)]
+                    src_ref = other.getPayloadRef(c0)
+                    src_ref += 10
+                    if src_pre is not None:
+                        sp_ = tuple(src_pre) + (c0,)
+                        nv = model.get(sp_, d) + 10
+                        if nv != d:
+                            model[sp_] = nv
+                        else:
+                            model.pop(sp_, None)
+                        wrote.add(sp_)
+                    mon.count("assign_prefix_source_updates")
+                    if not compare("assign_prefix:source-updated-later"):
+                        return
+                    dref = entry(op).getPayloadRef(*(tuple(pre) + (c0,)))
+                    dref += 100
+                    dp_ = tuple(pre) + (c0,)
+                    nv = model.get(dp_, d) + 100
+                    if nv != d:
+                        model[dp_] = nv
+                    else:
+                        model.pop(dp_, None)
+                    wrote.add(dp_)
+                    srcv = unbox(other.getPayload(c0))
+                    want = (model.get(tuple(src_pre) + (c0,), d) if src_pre is not None else dict((c, v) for c, v in ospec)[c0] + 10)
+                    mon.check(srcv == want, "assign_prefix:destination-update-reached-source",
+                              f"after sub <<= other and an update of the destination at {c0}, the source reads {srcv!r}, expected {want!r}")
+                    label = "assign_prefix:destination-updated-later"
             elif k in ("getpos", "getpos_sp", "getposref"):
                 f, pre = _resolve(root, op["path"])
                 c = op["c"]
